@@ -4,8 +4,8 @@ import random
 from lib import tlc, harness
 
 LEVEL = 'model_checking'
-MODES = ['A', 'B', 'C', 'D', 'E']
-PRIO = {'A': 100, 'B': 200, 'C': 100, 'D': 100, 'E': 50}
+MODES = ['A', 'B', 'C', 'D', 'E', 'G']       # G is a game mode (a game is running throughout) with a shot and a persisting counter
+PRIO = {'A': 100, 'B': 200, 'C': 100, 'D': 100, 'E': 50, 'G': 150}
 NAMES = ['will_start', 'starting', 'started', 'will_stop', 'stopping', 'stopped']
 _H = {}
 
@@ -26,7 +26,7 @@ CHECK_DEADLOCK FALSE
 
 GEN_CFG = """SPECIFICATION Spec
 CONSTANTS
-  Modes = {"A", "B", "C", "D", "E"}
+  Modes = {"A", "B", "C", "D", "E", "G"}
   Prio <- FullPrio
   Auto <- FullAuto
   Deviations = {}
@@ -40,7 +40,9 @@ def _machine():
         _H.pop('h', None)
         _H['dirty'] = False
     if 'h' not in _H:
-        h = harness.boot('modes')
+        h = harness.boot('modes', fake_game=True)
+        h.start_game()          # game modes need a game: one player, ball 1, nothing ever drains
+        h.advance_time_and_run(1)
         _H['h'] = h
         _H['sink'] = [None]
         for m in MODES:
@@ -51,10 +53,10 @@ def _machine():
             for kind in ('start', 'stop'):
                 h.machine.events.add_handler('vm_%s_%s' % (kind, m), _mk_req(m, kind), priority=100000)
         # one warm-up cycle so that lazily created registrations are part of the baseline
-        for m in ('A', 'B', 'C', 'D'):
+        for m in ('A', 'B', 'C', 'D', 'G'):
             h.machine.events.post('vm_start_' + m)
         settle(h, 30)
-        for m in ('A', 'B', 'C', 'D'):
+        for m in ('A', 'B', 'C', 'D', 'G'):
             h.machine.events.post('vm_stop_' + m)
         settle(h, 30)
         h.machine.events.post('vm_stop_D')      # D restarted when A stopped
@@ -216,6 +218,11 @@ class ModeRun:
                         self.m.events.post('vm_cnt_on_%s' % m)
                         self.m.events.post('vm_pause_%s' % m)
                         self.m.events.post('vm_light_%s' % m)
+                    # the game mode's shot: enabled twice in a row, hit, its counter hit
+                    for e in ('vm_shot_on_G', 'vm_shot_on_G', 'vm_count_G'):
+                        self.m.events.post(e)
+                    self.m.switch_controller.process_switch('s_G', 1, logical=True)
+                    self.m.switch_controller.process_switch('s_G', 0, logical=True)
                     self.h.advance_time_and_run(0.5)
                 if self.rnd.random() < 0.5:
                     self.rest()
@@ -229,6 +236,9 @@ class ModeRun:
                     self.m.events.post('vm_ping_%s_delayed' % m)
                     self.m.events.post('vm_cnt_on_%s' % m)
                     self.m.events.post('vm_pause_%s' % m)
+            if self.m.modes['G'].active:
+                self.m.events.post('vm_shot_on_G')
+                self.m.events.post('vm_shot_on_G')
             self.h.advance_time_and_run(0.1)
             for _ in range(4):      # repeatedly: stopping A starts D, held queue events delay a stop
                 self.release()
